@@ -30,6 +30,12 @@ use serde_json::{json, Value};
 pub const WORKERS: usize = 16;
 pub const VERIF_DIR: &str = "/verif";
 
+/// where evidence and replay files are written (default /verif; the sensitivity runner points it
+/// to a scratch directory so that mutant runs never touch the committed evidence)
+pub fn out_dir() -> PathBuf {
+    std::env::var("VERIF_OUT").map(PathBuf::from).unwrap_or_else(|_| PathBuf::from(VERIF_DIR))
+}
+
 #[derive(Clone, Copy, Debug, PartialEq, Eq)]
 pub enum Tier {
     Quick,
@@ -359,7 +365,7 @@ pub fn run_generated<P: Prop>(
                     let cfg = Config {
                         cases: per_worker,
                         failure_persistence: None,
-                        max_shrink_iters: 6_000,
+                        max_shrink_iters: 2_500,
                         max_global_rejects: 1024,
                         ..Config::default()
                     };
@@ -426,7 +432,7 @@ pub fn run_generated<P: Prop>(
 }
 
 pub fn replay_dir(id: &str) -> PathBuf {
-    Path::new(VERIF_DIR).join("replays").join(id)
+    out_dir().join("replays").join(id)
 }
 pub fn regressions_dir(id: &str) -> PathBuf {
     Path::new(VERIF_DIR).join("regressions").join(id)
@@ -614,7 +620,7 @@ pub fn run_property<P: Prop>(tier: Tier, seed: u64) -> Outcome {
         "wall_s": (wall * 1000.0).round() / 1000.0,
         "violations": violations.len(),
     });
-    let evdir = Path::new(VERIF_DIR).join("evidence");
+    let evdir = out_dir().join("evidence");
     let _ = std::fs::create_dir_all(&evdir);
     let evpath = evdir.join(format!("{}.json", P::ID));
     if let Err(e) = std::fs::write(&evpath, serde_json::to_string_pretty(&ev).unwrap()) {
